@@ -86,7 +86,7 @@ type trace struct {
 
 const appType = 94 // msgChannelData: passes through handshakeTransport untouched
 
-func (t *trace) rec(p []byte) {
+func (t *trace) rec(p []byte, bytesLeft int64, pktsLeft uint32) {
 	var s string
 	switch {
 	case len(p) == 0:
@@ -96,7 +96,11 @@ func (t *trace) rec(p []byte) {
 	case p[0] == 21:
 		s = "N"
 	case p[0] == appType && len(p) >= 6 && p[1] == 0xA5:
-		s = fmt.Sprintf("a%d.%d", p[2], int(p[3])<<16|int(p[4])<<8|int(p[5]))
+		// writer . seqno . size . writeBytesLeft at the push ('m' = minus)
+		s = fmt.Sprintf("a%d.%d.%d.%s", p[2], int(p[3])<<16|int(p[4])<<8|int(p[5]), len(p), strings.Replace(fmt.Sprint(bytesLeft), "-", "m", 1))
+		if pktsLeft == 0 {
+			s += ".p0"
+		}
 	default:
 		s = "X"
 	}
@@ -183,8 +187,8 @@ func execRK(o hx.Op) string {
 	scfg.KeyExchanges = []string{"curve25519-sha256"}
 	scfg.RekeyThreshold = uint64(o.Int("sthr"))
 	scfg.AddHostKey(signer())
-	cs.h = ssh.VerifNewClientHandshakeRec(cconn, cv, sv, ccfg, cs.wire.rec)
-	ss.h = ssh.VerifNewServerHandshakeRec(sconn, cv, sv, scfg, ss.wire.rec)
+	cs.h = ssh.VerifNewClientHandshakeRec2(cconn, cv, sv, ccfg, cs.wire.rec)
+	ss.h = ssh.VerifNewServerHandshakeRec2(sconn, cv, sv, scfg, ss.wire.rec)
 	errc := make(chan error, 2)
 	go func() { errc <- cs.h.WaitSession() }()
 	go func() { errc <- ss.h.WaitSession() }()
@@ -317,11 +321,16 @@ func execRK(o hx.Op) string {
 			time.Sleep(200 * time.Microsecond)
 		}
 		// let a key exchange that is still running finish (its packets are already recorded either way)
+		// (a re-key requested by the last pushes is started by kexLoop within moments: wait until both sides have
+		// been idle for 20 ms in a row, so that its KEXINIT is part of the recorded wire)
 		t1 := time.Now()
-		for time.Since(t1) < 2*time.Second {
+		idleSince := time.Now()
+		for time.Since(t1) < 5*time.Second {
 			k1, _ := cs.h.KexState()
 			k2, _ := ss.h.KexState()
-			if !k1 && !k2 {
+			if k1 || k2 {
+				idleSince = time.Now()
+			} else if time.Since(idleSince) > 20*time.Millisecond {
 				break
 			}
 			time.Sleep(200 * time.Microsecond)
